@@ -163,8 +163,9 @@ func (c *cluster) key() (uint64, []byte) {
 		k.u(uint64(l.typ))
 		k.bs(l.data)
 	}
-	body := len(k.b)
 	u := &c.used
+	k.b = append(k.b, c.iso)
+	body := len(k.b)
 	k.b = append(k.b, u.Proposals, u.Drops, u.Dups, u.Crashes, u.Heartbeats, u.Compacts, u.ConfChanges, u.Transfers, u.Expires)
 	sum := sha1.Sum(k.b)
 	return binary.LittleEndian.Uint64(sum[:8]), k.b[:body]
